@@ -67,6 +67,20 @@ _NODE_SKIP = frozenset([
 _SYMBOL_SKIP = frozenset(["_name"])
 
 
+_CLS = {}       # lazily imported PSyclone classes
+_KEYS = {}      # (class, number of instance attributes) -> sorted content keys
+
+
+def _classes():
+    if not _CLS:
+        # pylint: disable=import-outside-toplevel
+        from psyclone.psyir.nodes import Call, Node
+        from psyclone.psyir.symbols import DataType, Symbol, SymbolTable
+        _CLS.update(Node=Node, Call=Call, DataType=DataType, Symbol=Symbol,
+                    SymbolTable=SymbolTable)
+    return _CLS
+
+
 def _clean(text):
     return _ADDR.sub("", text)
 
@@ -75,11 +89,12 @@ def _enc(val, depth=0, active=None):
     """Encode an attribute value without using object identities.
     `depth` is the nesting depth of the value, `active` the ids of the
     nodes whose snapshot is in progress (guards against attribute cycles)."""
-    # pylint: disable=too-many-return-statements,import-outside-toplevel
-    from psyclone.psyir.nodes import Node
-    from psyclone.psyir.symbols import DataType, Symbol, SymbolTable
+    # pylint: disable=too-many-return-statements
     if val is None or isinstance(val, (bool, int, str)):
         return val
+    cls = _classes()
+    Node, DataType = cls["Node"], cls["DataType"]
+    Symbol, SymbolTable = cls["Symbol"], cls["SymbolTable"]
     if isinstance(val, float):
         return repr(val)
     if isinstance(val, enum.Enum):
@@ -131,8 +146,7 @@ def _snap_symbol(sym):
         # only initial values are trees that belong to the symbol; any
         # other node-valued attribute (e.g. ContainerSymbol._reference) is
         # a link into another tree
-        from psyclone.psyir.nodes import Node
-        if isinstance(val, Node) and key != "_initial_value":
+        if isinstance(val, _classes()["Node"]) and key != "_initial_value":
             attrs.append([key, ["node", type(val).__name__]])
         else:
             attrs.append([key, _enc(val)])
@@ -155,9 +169,8 @@ def _snap_table(table):
 
 
 def _snap_node(node, symbols, active=None):
-    # pylint: disable=import-outside-toplevel
-    from psyclone.psyir.nodes import Call, Node
-    if not isinstance(node, Node):
+    cls = _classes()
+    if not isinstance(node, cls["Node"]):
         return ["<not-a-node>", type(node).__name__, [], None]
     if active is None:
         active = set()
@@ -165,13 +178,14 @@ def _snap_node(node, symbols, active=None):
         # a cyclic "tree" (or an absurdly deep one): cut here
         return ["<cycle>", type(node).__name__, [], None]
     active.add(id(node))
-    attrs = []
     state = vars(node)
-    for key in sorted(state):
-        if key in _NODE_SKIP:
-            continue
-        attrs.append([key, _enc(state[key], 0, active)])
-    if isinstance(node, Call):
+    ckey = (type(node), len(state))
+    keys = _KEYS.get(ckey)
+    if keys is None or any(k not in state for k in keys):
+        keys = tuple(sorted(k for k in state if k not in _NODE_SKIP))
+        _KEYS[ckey] = keys
+    attrs = [[key, _enc(state[key], 0, active)] for key in keys]
+    if isinstance(node, cls["Call"]):
         try:
             names = list(node.argument_names)
         except Exception as err:        # malformed call
